@@ -1298,7 +1298,7 @@ def translate_group(pid, group, report):
                     raise Untranslatable("fragment pattern not found")
                 plist = [(("pid", n), tuple(t) if isinstance(t, list) else t) for n, t in f["params"]]
                 rt = f["ret"]
-                body = "{ " + m.group(1) + " }"
+                body = "{ " + m.group(1) + " " + f.get("tail", "") + " }"
                 sigs[key] = (f, fcfg, plist, rt, body)
                 known[key] = ("GenRs." + f["lean"], [p[1] for p in plist], rt)
                 continue
